@@ -35,6 +35,20 @@ def cases(tier, seed):
                 ra = [ra[0], rng.choice(ra)]; rb = [rb[0], rng.choice(rb)]
             for a, b in itertools.product(ra, rb):
                 add('%s %s %s' % (a, op, b), None, ('lit', op, ka, kb))
+    # number x number over the edges of the double and of the integer types a port might convert to
+    # (2^31, 2^32, 2^52, 2^53, 2^63, 2^64, 1e19..1e22, subnormals, the largest double), both signs
+    pos = ['0', '1', '2', '3', '7', '10', '0.5', '1.5', '2.5', '0.1', '0.3', '1e-7', '5e-324', '2.2250738585072014e-308', '2147483647', '2147483648', '4294967296', '4503599627370496',
+           '9007199254740992', '9007199254740993', '9223372036854775807', '9223372036854775808', '1e19', '18446744073709551616', '3e19', '1e20', '1e21', '1e22', '1e100', '1e308', '1.7976931348623157e308']
+    edge = pos + ['-' + x for x in pos]
+    for op in ['%', '+', '-', '*', '/', '=', '!=', '<', '<=', '>', '>=']:
+        for a, b in itertools.product(edge, edge):
+            if tier == 'quick' and op != '%' and rng.random() < 0.85:
+                continue
+            if tier == 'quick' and op == '%' and rng.random() < 0.5:
+                continue
+            add('%s %s %s' % (a, op, b) if not b.startswith('-') else '%s %s (%s)' % (a, op, b), None, ('num-edge', op))
+            if rng.random() < 0.15:
+                add('x %s y' % op, {'x': float(a), 'y': float(b)}, ('num-edge-doc', op))
     # operands supplied as input members
     for op in BINOPS:
         for ka, kb in itertools.product(list(DOCVALS) + ['missing'], repeat=2):
